@@ -5,11 +5,8 @@ from checks.c08 import pm_defect_shape, classify_pm
 
 def check(run):
     run.level = "proof"
-    try:
-        from checks import _tree_theorems
-        run.prove("ZkProofs.C15", _tree_theorems.C15)
-    except ImportError:
-        run.note("proof module for C15 not present yet")
+    from checks import _tree_theorems
+    run.prove(_tree_theorems.C15)
     rng = run.rng
     quick = run.tier == "quick"
     nseq = 60 if quick else 600
